@@ -620,6 +620,11 @@ class Randomizer(RandIF):
                         # Element of a list: drop the list's cached sum/product nodes
                         f.parent.sum_expr_btor = None
                         f.parent.product_expr_btor = None
+            # A call that fails does not reach post_randomize: drop the elements
+            # by which random-size lists were extended for this call
+            for f in [f for rs in ri.randsets() for f in rs.all_fields()] + list(ri.unconstrained()):
+                if hasattr(f.parent, "trim_to_size"):
+                    f.parent.trim_to_size()
 
         visited = [] 
         for fm in field_model_l:
